@@ -45,6 +45,19 @@ static int compare_double(const void* a, const void* b) {
     return 0;
 }
 
+/* NaN is unordered: every comparison with it is false */
+static bool is_nan_value(carquet_physical_type_t type, const void* p) {
+    if (type == CARQUET_PHYSICAL_FLOAT) {
+        float v = *(const float*)p;
+        return v != v;
+    }
+    if (type == CARQUET_PHYSICAL_DOUBLE) {
+        double v = *(const double*)p;
+        return v != v;
+    }
+    return false;
+}
+
 static int compare_bytes(const void* a, size_t a_len, const void* b, size_t b_len) {
     size_t min_len = a_len < b_len ? a_len : b_len;
     int cmp = memcmp(a, b, min_len);
@@ -185,6 +198,12 @@ carquet_status_t carquet_reader_row_group_matches(
     int cmp_min, cmp_max;
 
     if (cmp_fn) {
+        /* No conclusion can be drawn from a NaN probe or a NaN bound */
+        if (is_nan_value(type, value) ||
+            is_nan_value(type, stats.min_value) ||
+            is_nan_value(type, stats.max_value)) {
+            return CARQUET_OK;
+        }
         cmp_min = cmp_fn(value, stats.min_value);
         cmp_max = cmp_fn(value, stats.max_value);
     } else {
